@@ -26,7 +26,18 @@ func init() {
 			"a case is non-trivial when a call site or function designator was defined or compiled before its target existed, or when the mode evaluates a Code object more than once, " +
 			"compiles it, or redefines a function; family reeval (model-free, differential): every special operator of the interpreter in a pure expression of x that is evaluated " +
 			"three times with x = 1,2,1 and 2,1,2 through one function, compiled function, lambda, Code object (plain / compiled), loop body and nested call - the n-th result must equal " +
-			"what a fresh copy of the same code gives when evaluated once with that x",
+			"what a fresh copy of the same code gives when evaluated once with that x; the input sequences are a^N and (ab)^N/2 for N in {1,2,3,5,17} and a^(k-1)bab for k<=5 " +
+			"(every branch first taken at every position <= 5); family tree: expression trees over calls of a late unary and a late binary function and two built-ins with traced leaves, " +
+			"in every call context (body form, argument, if/when/let/cond/progn/setq/and, lambda, &optional/&key default form, macro argument and macro template, top level, quoted data given to eval), " +
+			"every order of the definitions, the late call spelled directly or through funcall/apply/mapcar of #'f, (function f), 'f or send, the late callee a defun, generic function, " +
+			"flavors method or (differential oracle only) a macro; modes unbind/compunbind: fmakunbound, then defined again; family quoted (model-free): every reeval template as a QUOTED list " +
+			"that is evaluated (eval of a variable / of a function's constant / inside one let form / spliced into a macro expansion / twice in one form) and inspected as data - its rendering must not change; " +
+			"family mutdata (model-free): a list built at run time is evaluated by ONE (eval d) call site (function, compiled function, lambda, loop body, Code object plain / compiled), changed in place without changing its length " +
+			"(operator, argument, element of a nested list, nested list replaced; every single change and every ordered pair), and evaluated again: every evaluation equals a fresh copy of the list at a fresh call site; " +
+			"programs var:rebind (a caller rebinds a defvar'd variable with let around the call), var:constant-bare, fbound (fboundp of a name that was only called), case (capital letters in function names), " +
+			"struct (constructor and readers made by defstruct as late callees), rec2 (recursion through two late functions); mode regen (defgeneric evaluated a second time, then the method); " +
+			"family builtin (model-free): every exported built-in function x argument tuples from its documented parameter types, held in one lambda and called with T1,T2,T1 (and with constant arguments three times): " +
+			"every result prints like a fresh copy of the form, the first result still prints the same afterwards, and changing result 1 destructively changes no later result",
 		Assumptions: []string{
 			"the reference evaluator (props/c08/ref.go, a 600-line late-binding Lisp subset) is the oracle; its own sensitivity is shown by the mutated references",
 			"Code.Compile evaluating top-level defun/defvar/defmacro before the other top-level forms is documented (docs/features.md, Read and Eval) and modelled, not reported",
@@ -35,12 +46,40 @@ func init() {
 			"definition forms have no side effects except a traced defvar/defparameter initial value, which must be evaluated exactly as often as the definition form is (once, or never when a defvar is already bound)",
 			"a redefined macro is expected to be seen by functions defined earlier (slip expands at every call; holds on the unchanged tree)",
 			"(funcall f) with no further argument is not generated (slip rejects it: C04's finding)",
+			"a MACRO that is used before it is defined: Common Lisp leaves it undefined and the statement speaks of functions - only the differential oracle applies (no Go fault, same outcome with and without Code.Compile)",
+			"what a call does between (fmakunbound 'f) and the next definition of f is not constrained (slip keeps calling the old body from existing call sites; the statement does not speak of fmakunbound)",
+			"flet, labels, (setf (symbol-function ..)) and (setf (fdefinition ..)) are not defined by slip: family inert only demands no Go fault and independence from Code.Compile",
+			"a let of a variable that is special (defvar / defparameter) binds it dynamically for the functions called from the body AND is captured by a function defined inside the let (slip's scopes; Common Lisp itself depends on whether the defvar came before that let, so the statement cannot decide between the two)",
+			"a structure is never defined twice (the consequences of redefining a defstruct are undefined, CLHS); (funcall #'eval form) is not used (funcall evaluates form, eval evaluates the result again - the same in every order and mode); a quoted symbol 'k is not written inside a backquote template or inside data that is shown (slip evaluates 'k in a template as the variable k and reads 'k inside a quoted list as an object, not a list - the same in every order and mode)",
 		},
 		Enumerate: enumerate,
 		Exec:      exec,
 		Required: []string{"fwd-plain-args", "fwd-plain-noargs", "fwd-special-args", "fwd-special-noargs", "fwd-ref", "fwd-var", "compiled", "re-evaluated",
 			"redefinition-seen-by-old-caller", "early-failure-then-value", "mutual-recursion", "self-recursion", "self-recursion-guard-clause", "macro-use",
-			"macro-expands-to-later-function", "defvar-read", "global-state", "closure", "closure-state", "code-as-data", "function-designator", "two-callers", "re-evaluated-under-new-bindings", "reeval-cases", "keyword-arguments", "generic-function-callee"},
+			"macro-expands-to-later-function", "defvar-read", "global-state", "closure", "closure-state", "code-as-data", "function-designator", "two-callers", "re-evaluated-under-new-bindings", "reeval-cases", "keyword-arguments", "generic-function-callee",
+			// nested forward-reference trees
+			"tree-cases", "tree-nest-self", "tree-nest-other", "tree-nest-sibling", "tree-nest-single", "tree-depth-3",
+			"fwd-nested-in-fwd-arg", "fwd-nested-same-function-eager", "fwd-nested-same-function-lazy", "fwd-in-default-form",
+			"tree-ctx-body", "tree-ctx-arg", "tree-ctx-if", "tree-ctx-when", "tree-ctx-letinit", "tree-ctx-letbody", "tree-ctx-cond", "tree-ctx-progn",
+			"tree-ctx-lambda", "tree-ctx-lambda-head", "tree-ctx-optdefault", "tree-ctx-keydefault", "tree-ctx-macarg", "tree-ctx-macbody", "tree-ctx-top",
+			"tree-ctx-evalq", "tree-ctx-evalvar", "tree-ctx-evalfn", "tree-data-evaluated-and-inspected",
+			// forward references of other kinds
+			"tree-call-funcall-fn", "tree-call-funcall-function", "tree-call-funcall-sym", "tree-call-apply-fn", "tree-call-apply-sym",
+			"tree-call-mapcar-fn", "tree-call-mapcar-sym", "tree-call-send", "fwd-send-method-missing",
+			"tree-late-generic", "tree-late-method", "tree-late-flavor", "tree-late-macro", "macro-used-before-defined", "macro-forward-differential",
+			"fmakunbound-then-redefined", "recursion-through-two-late-functions", "inert-forms",
+			// run counts and staged compilation
+			"reeval-runs-1", "reeval-runs-2", "reeval-runs-3", "reeval-runs-5", "reeval-runs-17", "reeval-same-input-every-time",
+			"reeval-other-branch-first-at-2", "reeval-other-branch-first-at-3", "reeval-other-branch-first-at-4", "reeval-other-branch-first-at-5",
+			// code held in data
+			"quoted-list-evaluated-and-inspected", "quoted-way-evalvar", "quoted-way-evalfn", "quoted-way-evallet", "quoted-way-macrosplice", "quoted-way-evaltwice",
+			"mutdata-cases", "mutdata-change-alters-the-result", "mutdata-site-defun", "mutdata-site-compdefun", "mutdata-site-lambda",
+			"mutdata-site-loop", "mutdata-site-code", "mutdata-site-compcode",
+			// order / redefinition dependencies reported in round 8
+			"special-variable-rebound-by-caller", "special-variable-rebound-by-let", "constant-is-the-body-form", "fboundp-of-a-name-that-was-only-called",
+			"mixed-case-function-name", "structure-functions-as-late-callees", "generic-function-defined-again",
+			// every built-in function evaluated again
+			"builtin-cases", "builtin-holder-params", "builtin-holder-inline", "builtin-result-held-by-reference", "builtin-result-1-modified", "builtin-two-different-tuples"},
 		Bound:    bound,
 		Selftest: selftest,
 	})
@@ -49,25 +88,42 @@ func init() {
 func bound(tier string) string {
 	progs, cases := 0, 0
 	fam := map[string]int{}
-	enumerate(tier, func(string) { cases++ })
+	famCases := map[string]int{}
+	allPrograms()
+	enumerate(tier, func(spec string) {
+		cases++
+		f := spec[:strings.IndexAny(spec, ":|")]
+		if p := progByID[spec[:strings.IndexByte(spec, '|')]]; p != nil {
+			f = p.fam
+		}
+		famCases[f]++
+	})
 	for _, p := range allPrograms() {
 		if !p.thorough || tier == engine.Thorough {
 			progs++
 			fam[p.fam]++
 		}
 	}
-	var fs []string
+	fam["tree"] = enumTrees(tier, 0, 0, func(string) {})
+	progs += fam["tree"]
+	var fs, cs []string
 	for f, n := range fam {
 		fs = append(fs, fmt.Sprintf("%s=%d", f, n))
 	}
+	for f, n := range famCases {
+		cs = append(cs, fmt.Sprintf("%s=%d", f, n))
+	}
 	sort.Strings(fs)
+	sort.Strings(cs)
 	shapes := "call graphs chain2, chain3, mutual2, mutual3, fan3, join3, recursive-leaf, self1, self2, selfjoin3, mutual2s (self / back call in the context itself, guard-clause termination) (<= 3 definitions) x 15 of 19 call contexts x 0..3 traced arguments x required/&optional parameters"
 	if tier == engine.Thorough {
 		shapes = "call graphs chain2..4, mutual2, mutual3, fan3, join3, diamond4, recursive-leaf, self1, self2, selfjoin3, mutual2s, mutual3s (self / back call in the context itself, guard-clause termination) (<= 4 definitions, all 24 orders) x all 19 call contexts x 0..3 traced arguments x " +
 			"required/&optional parameters, plus chain3 with every ordered pair of distinct contexts on its two edges"
 	}
 	return fmt.Sprintf("%d programs (%s): %s; macro / defvar / closure / code-as-data programs; every admissible order of the definitions; %d modes + one redefinition mode pair per "+
-		"redefinable definition; family reeval: "+reevalOps()+" x 7 ways of holding the code x 2 value orders; %d cases, all executed", progs, strings.Join(fs, " "), shapes, len(baseModes)+2, cases)
+		"redefinable definition + one fmakunbound mode pair per late defun; family tree: %s; family reeval: "+reevalOps()+" x 7 ways of holding the code x %d input sequences; "+
+		"family quoted: the same templates x %d ways x %d sequences; family builtin: %s; cases per family: %s; %d cases, all executed",
+		progs, strings.Join(fs, " "), shapes, len(baseModes)+2, treeBound(tier), len(reOrders), len(quotedWays), len(quotedOrders), biBound(tier), strings.Join(cs, " "), cases)
 }
 
 var caseCounter int64
@@ -85,7 +141,11 @@ func parseSpec(spec string) (p *program, perm []int, mode string, err error) {
 		return nil, nil, "", fmt.Errorf("spec must be program|order|mode")
 	}
 	allPrograms()
-	if p = progByID[parts[0]]; p == nil {
+	if strings.HasPrefix(parts[0], "tree:") {
+		if p, err = treeProgram(parts[0]); err != nil {
+			return nil, nil, "", err
+		}
+	} else if p = progByID[parts[0]]; p == nil {
 		return nil, nil, "", fmt.Errorf("unknown program %q", parts[0])
 	}
 	seen := map[int]bool{}
@@ -141,7 +201,68 @@ func sigMode(cls string) string {
 	if cls == "compredefall" {
 		return "compredef"
 	}
-	return cls // redef compredef early compearly
+	return cls // redef compredef early compearly unbind compunbind
+}
+
+// twinMode: the same history with / without Code.Compile (differential oracle of the macro-before-definition cases).
+func twinMode(mode string) string {
+	cls, rest := modeClass(mode), ""
+	if i := strings.IndexByte(mode, ':'); 0 < i {
+		rest = mode[i:]
+	}
+	twins := map[string]string{"each": "compeach", "compeach": "each", "whole": "comp", "comp": "whole", "rep": "comprep", "comprep": "rep",
+		"mixrep": "rep", "wholerep": "compwholerep", "compwholerep": "wholerep", "redef": "compredef", "compredef": "redef", "regen": "compregen", "compregen": "regen",
+		"early": "compearly", "compearly": "early", "unbind": "compunbind", "compunbind": "unbind"}
+	if t, has := twins[cls]; has {
+		return t + rest
+	}
+	return ""
+}
+
+// macroForward: a late callee of the program is a macro and, in this order and mode, code that uses it is defined,
+// compiled or evaluated before the macro exists. Common Lisp leaves that undefined and the statement speaks of
+// functions: only the differential oracle applies (no Go fault, the outcome does not depend on Code.Compile).
+func macroForward(p *program, perm []int, cls string) bool {
+	if len(p.macroDefs) == 0 {
+		return false
+	}
+	if p.macroTop && (cls == "early" || cls == "compearly") {
+		return true
+	}
+	isMacro := map[int]bool{}
+	for _, d := range p.macroDefs {
+		isMacro[d] = true
+	}
+	seenOther := false
+	for _, d := range perm {
+		if isMacro[d] {
+			if seenOther {
+				return true
+			}
+		} else {
+			seenOther = true
+		}
+	}
+	return false
+}
+
+// slipEvalDigests runs a history on a fresh machine and returns label=digest of every evaluation step (E / L).
+func slipEvalDigests(h []hstep, generic func(string) string) (out []string, fault string) {
+	m := newMachine()
+	for i, st := range h {
+		o, seen := m.do(st.step)
+		if !seen {
+			continue
+		}
+		if o.err != nil && o.err.GoFault && fault == "" {
+			fault = fmt.Sprintf("step %d (%s) of  %s  => %s", i, st.label, renderHistory(h, i, generic), generic(o.String()))
+		}
+		if (st.op == 'E' || st.op == 'L') && st.check != chkLenient {
+			// evaluations made while a callee may still be missing are not compared (not constrained for functions either)
+			out = append(out, st.label+"="+generic(o.digest()))
+		}
+	}
+	return
 }
 
 func edgeName(e fwdEdge) string {
@@ -199,8 +320,47 @@ func exec(spec string) (res engine.Result) {
 		res.Outcome = strings.Join(out, "\n")
 		return
 	}
+	if strings.HasPrefix(spec, "bound|") { // development aid: the bound text of a tier
+		res.Outcome = bound(spec[6:])
+		return
+	}
+	if strings.HasPrefix(spec, "builtin-census|") { // development aid: builtin-census|<tier>|<pkg:fn or ?>: the judged tuple shapes of one function
+		parts := strings.Split(spec, "|")
+		shapes, judged := 0, 0
+		var names []string
+		enumBuiltins(parts[1], func(sp string) {
+			fn := strings.Split(sp, "|")[1]
+			if len(parts) < 3 || parts[2] == "?" {
+				if len(names) == 0 || names[len(names)-1] != fn {
+					names = append(names, fn)
+				}
+				return
+			}
+			if fn != parts[2] {
+				return
+			}
+			shapes++
+			if r := execBuiltin(sp); r.Nontrivial || 0 < len(r.Failures) {
+				judged++
+			}
+		})
+		res.Outcome = fmt.Sprintf("%d %d %s", shapes, judged, strings.Join(names, " "))
+		return
+	}
 	if strings.HasPrefix(spec, "reeval|") {
 		return execReeval(spec)
+	}
+	if strings.HasPrefix(spec, "quoted|") {
+		return execQuoted(spec)
+	}
+	if strings.HasPrefix(spec, "inert|") {
+		return execInert(spec)
+	}
+	if strings.HasPrefix(spec, "mutdata|") {
+		return execMutdata(spec)
+	}
+	if strings.HasPrefix(spec, "builtin|") {
+		return execBuiltin(spec)
 	}
 	p, perm, mode, err := parseSpec(spec)
 	if err != nil {
@@ -218,6 +378,11 @@ func exec(spec string) (res engine.Result) {
 	m := newMachine()
 	r := newRefMachine(mutNone)
 	cls := modeClass(mode)
+	defer cleanupNames(prefix, h)
+	if macroForward(p, perm, cls) {
+		execMacroForward(&res, spec, p, perm, mode, h, generic)
+		return
+	}
 	var digest []string
 	evals := map[int]int{}
 	earlyFailed := false
@@ -243,7 +408,7 @@ func exec(spec string) (res engine.Result) {
 		}
 		digest = append(digest, st.label+"="+generic(o.digest()))
 		sig := func(kind string) string {
-			return fmt.Sprintf("mode=%s fam=%s fwd=%s at=%s kind=%s", sigMode(cls), p.fam, fwdLabel(r.edges), st.label, kind)
+			return fmt.Sprintf("mode=%s fam=%s fwd=%s at=%s kind=%s", sigMode(cls), p.fam, fwdLabel(r.edges), st.label, kind) + p.sigx
 		}
 		detail := func(want string) string {
 			return fmt.Sprintf("%s: step %d (%s) of  %s  => %s; %s", spec, i, st.label, renderHistory(h, i, generic), generic(o.String()), want)
@@ -278,6 +443,12 @@ func exec(spec string) (res engine.Result) {
 			default:
 				if earlyFailed && st.check == chkExact {
 					res.Hit("early-failure-then-value")
+					if (cls == "unbind" || cls == "compunbind") && st.label == "after-redef" {
+						res.Hit("fmakunbound-then-redefined")
+					}
+				}
+				if (cls == "regen" || cls == "compregen") && st.label == "after-redef" {
+					res.Hit("generic-function-defined-again")
 				}
 			}
 		}
@@ -298,7 +469,62 @@ func exec(spec string) (res engine.Result) {
 	for _, f := range p.feats {
 		res.Hit(f)
 	}
+	for name, n := range r.hits {
+		if res.Counters == nil {
+			res.Counters = map[string]int{}
+		}
+		res.Counters[name] += n
+	}
 	res.Nontrivial = fl != "none" || (cls != "each" && cls != "whole")
 	res.Outcome = strings.Join(digest, " | ")
 	return
+}
+
+// execMacroForward: a MACRO used before it is defined. The case and its twin (the same history with / without
+// Code.Compile) are run on fresh machines: no step may be a Go fault and the evaluation steps must agree.
+func execMacroForward(res *engine.Result, spec string, p *program, perm []int, mode string, h []hstep, generic func(string) string) {
+	cls := modeClass(mode)
+	sig := func(at, kind string) string {
+		return fmt.Sprintf("mode=%s fam=%s fwd=macro at=%s kind=%s", sigMode(cls), p.fam, at, kind) + p.sigx
+	}
+	own, fault := slipEvalDigests(h, generic)
+	res.Outcome = "macro-forward: " + strings.Join(own, " | ")
+	res.Nontrivial = true
+	res.Hit("macro-used-before-defined")
+	for _, f := range p.feats {
+		res.Hit(f)
+	}
+	if fault != "" {
+		res.Fail(sig("any", "go-fault"), spec+": "+fault+"; a Go runtime fault")
+		return
+	}
+	tm := twinMode(mode)
+	if tm == "" {
+		return
+	}
+	prefix2 := uniqPrefix(spec + "#twin")
+	th, err := buildHistory(p, perm, tm, func(s string) string { return strings.ReplaceAll(s, "@", prefix2) })
+	if err != nil {
+		res.Fail("harness:bad-spec", spec+": twin "+tm+": "+err.Error())
+		return
+	}
+	generic2 := func(s string) string { return strings.ReplaceAll(s, prefix2, "@") }
+	twin, fault := slipEvalDigests(th, generic2)
+	cleanupNames(prefix2, th)
+	if fault != "" {
+		return // reported by the twin's own case
+	}
+	res.Hit("macro-forward-differential")
+	if len(own) != len(twin) {
+		res.Fail("harness:twin-history", fmt.Sprintf("%s: %d evaluation steps, twin %s has %d", spec, len(own), tm, len(twin)))
+		return
+	}
+	for i := range own {
+		if own[i] != twin[i] {
+			at := own[i][:strings.IndexByte(own[i], '=')]
+			res.Fail(sig(at, "depends-on-compile-mode"), fmt.Sprintf("%s: evaluation step %d of  %s  => %s; the same history in mode %s => %s (all: %s  vs  %s)",
+				spec, i, renderHistory(h, len(h), generic), own[i], tm, twin[i], strings.Join(own, " | "), strings.Join(twin, " | ")))
+			return
+		}
+	}
 }
